@@ -13,5 +13,8 @@ theorem address_resolve : @Generated.Funcs.address_resolve = @Pinned.Funcs.addre
 theorem fix_whitespace : @Generated.Funcs.fix_whitespace = @Pinned.Funcs.fix_whitespace := rfl
 theorem make_private : @Generated.Funcs.make_private = @Pinned.Funcs.make_private := rfl
 theorem coerce_response_name : @Generated.Funcs.coerce_response_name = @Pinned.Funcs.coerce_response_name := rfl
+theorem to_camel_case : @Generated.Funcs.to_camel_case = @Pinned.Funcs.to_camel_case := rfl
+theorem fix_name_segment : @Generated.Funcs.fix_name_segment = @Pinned.Funcs.fix_name_segment := rfl
+theorem fix_field_path : @Generated.Funcs.fix_field_path = @Pinned.Funcs.fix_field_path := rfl
 
 end GapicModel.Bridge.Funcs
